@@ -114,6 +114,12 @@ func init() {
 }
 
 func runC18(r *Run) {
+	// the store-level iterator behind the paged "unreceived" answers returns exactly atMost entries when more exist
+	gu := "chain/account/mailbox.(*mailbox).GetUnreceivedAccountBlockHashes"
+	r.Alias("$it", "recv.DB.NewIterator(mailbox.getPendingBlocksIterator())")
+	r.Returns(gu, []string{"nil, $it.Error()", "nil, types.BytesToHash($it.Key()[1:])#1", "iter(new([0]types.Hash)[:0]), nil", "append(iter(new([0]types.Hash)[:0]),list(types.BytesToHash($it.Key()[1:])#0)), nil"},
+		"the limit is tested after the current hash was appended: the early return hands out the list including it (testing first drops the last entry of every full page, and `more`/`count` computed from the length are wrong)")
+	r.Branch(gu, "eq((iter(a0)-1),0)", "the countdown stops at exactly atMost entries")
 	why1 := "an unbounded page size returns the whole list in one reply; every sibling rejects sizes above the advertised limit"
 	n, withParam := 0, 0
 	for _, m := range rpcEntries(r) {
